@@ -2706,3 +2706,415 @@ mod small {
         rec.finish();
     }
 }
+
+// ---------------------------------------------------------------------------------------------
+// (D) waker identity: one task waiting for several indices, futures that change hands
+// ---------------------------------------------------------------------------------------------
+//
+// The workloads above give every send / receive request its own task, and a task is always polled with the
+// same waker. Real callers do neither: `join`, `try_join` and `seq_join` poll several requests of one channel
+// with ONE waker, and a future that was polled in place (select!, poll_immediate) and is then moved into
+// FuturesUnordered or a spawned task comes back with ANOTHER waker. The contract of `Future::poll` is that
+// only the waker of the most recent poll has to be woken. Here a small pool executor gives every task a flag
+// waker, lets tasks own several requests, moves pending requests between tasks, and at the end - all data
+// fed, everything issued, nothing woken - every request must have completed with its own message.
+
+#[cfg(not(feature = "shuttle"))]
+mod wk {
+    use std::{
+        sync::atomic::{AtomicBool, AtomicU64, Ordering as AO},
+        task::Wake,
+    };
+
+    use typenum::Unsigned;
+
+    use super::*;
+
+    struct Flag {
+        woken: AtomicBool,
+        wakes: AtomicU64,
+    }
+
+    impl Wake for Flag {
+        fn wake(self: StdArc<Self>) {
+            self.wake_by_ref();
+        }
+        fn wake_by_ref(self: &StdArc<Self>) {
+            self.woken.store(true, AO::SeqCst);
+            self.wakes.fetch_add(1, AO::SeqCst);
+        }
+    }
+
+    type Fut<T> = Pin<Box<dyn Future<Output = T>>>;
+
+    /// Tasks with flag wakers; every future is owned by one task at a time.
+    struct Pool<T> {
+        tasks: Vec<(StdArc<Flag>, Waker)>,
+        futs: Vec<Option<Fut<T>>>,
+        owner: Vec<Option<usize>>,
+        /// poll order inside a task (join order)
+        prio: Vec<u32>,
+        out: Vec<Option<Result<T, String>>>,
+        polls: u64,
+        moved_while_pending: u64,
+        shared_waker_polls: u64,
+    }
+
+    impl<T> Pool<T> {
+        fn new(n_tasks: usize) -> Self {
+            let tasks = (0..n_tasks)
+                .map(|_| {
+                    let f = StdArc::new(Flag { woken: AtomicBool::new(false), wakes: AtomicU64::new(0) });
+                    let w = Waker::from(StdArc::clone(&f));
+                    (f, w)
+                })
+                .collect();
+            Pool { tasks, futs: Vec::new(), owner: Vec::new(), prio: Vec::new(), out: Vec::new(), polls: 0, moved_while_pending: 0, shared_waker_polls: 0 }
+        }
+        fn add(&mut self, f: Fut<T>, prio: u32) -> usize {
+            self.futs.push(Some(f));
+            self.owner.push(None);
+            self.prio.push(prio);
+            self.out.push(None);
+            self.futs.len() - 1
+        }
+        fn poll_one(&mut self, k: usize, t: usize) {
+            let Some(f) = self.futs[k].as_mut() else { return };
+            let w = self.tasks[t].1.clone();
+            let mut cx = Context::from_waker(&w);
+            self.polls += 1;
+            match catch(|| f.as_mut().poll(&mut cx)) {
+                Ok(Poll::Pending) => {}
+                Ok(Poll::Ready(v)) => {
+                    self.out[k] = Some(Ok(v));
+                    self.futs[k] = None;
+                }
+                Err(p) => {
+                    self.out[k] = Some(Err(p));
+                    self.futs[k] = None;
+                }
+            }
+        }
+        /// Poll everything task `t` owns, in join order.
+        fn poll_task(&mut self, t: usize) {
+            self.tasks[t].0.woken.store(false, AO::SeqCst);
+            let mut mine: Vec<usize> = (0..self.futs.len()).filter(|k| self.owner[*k] == Some(t) && self.futs[*k].is_some()).collect();
+            mine.sort_by_key(|k| self.prio[*k]);
+            if mine.len() > 1 {
+                self.shared_waker_polls += 1;
+            }
+            for k in mine {
+                self.poll_one(k, t);
+            }
+        }
+        /// First poll of `k` as part of task `t` (the whole task is polled, as `join` would).
+        fn issue(&mut self, k: usize, t: usize) {
+            self.owner[k] = Some(t);
+            self.poll_task(t);
+        }
+        /// A pending future is handed to another task and polled there; the old task forgets it.
+        fn migrate(&mut self, k: usize, t: usize) {
+            if self.futs[k].is_some() && self.owner[k].is_some() && self.owner[k] != Some(t) {
+                self.moved_while_pending += 1;
+                self.owner[k] = Some(t);
+                self.poll_one(k, t);
+            }
+        }
+        fn settle(&mut self, r: &mut VRng) {
+            for _ in 0..100_000 {
+                let woken: Vec<usize> = (0..self.tasks.len()).filter(|t| self.tasks[*t].0.woken.load(AO::SeqCst)).collect();
+                if woken.is_empty() {
+                    return;
+                }
+                let t = *r.choose(&woken);
+                self.poll_task(t);
+            }
+        }
+        fn pending(&self) -> Vec<usize> {
+            (0..self.futs.len()).filter(|k| self.futs[*k].is_some()).collect()
+        }
+    }
+
+    #[derive(Default)]
+    struct WStats {
+        cases: u64,
+        polls: u64,
+        moved: u64,
+        shared: u64,
+        requests_completed: u64,
+        messages_checked: u64,
+    }
+
+    // ---- receiver -------------------------------------------------------------------------------
+
+    fn recv_identity_case<N: ArrayLength>(r: &mut VRng, st: &mut WStats, small: bool) -> Result<String, Finding> {
+        let sz = N::USIZE;
+        let cap = *r.choose(&[2usize, 3, 4, 4, 5, 6, 8, 8, 16]);
+        let n = r.range(2, if small { 10 } else { 40 }) as usize;
+        let n_tasks = r.range(1, 4) as usize;
+        let data: Vec<u8> = (0..n).flat_map(|i| payload(i, sz)).collect();
+        let (recv, feed) = new_receiver(cap);
+        let mut pool: Pool<RecvOut> = Pool::new(n_tasks);
+        let mut prios: Vec<u32> = (0..n as u32).collect();
+        match r.below(3) {
+            0 => prios.reverse(), // far requests first
+            1 => r.shuffle(&mut prios),
+            _ => {}
+        }
+        for i in 0..n {
+            pool.add(Box::pin(recv_task::<N>(recv.clone(), i)), prios[i]);
+        }
+        let task_of: Vec<usize> = (0..n).map(|_| r.below(n_tasks as u64) as usize).collect();
+        // chunks
+        let mut chunks: Vec<Vec<u8>> = Vec::new();
+        let mut o = 0;
+        while o < data.len() {
+            let c = (r.range(1, 3 * sz as u64 + 1) as usize).min(data.len() - o);
+            chunks.push(data[o..o + c].to_vec());
+            o += c;
+        }
+        let mut issue_order: Vec<usize> = (0..n).collect();
+        match r.below(3) {
+            0 => issue_order.reverse(),
+            1 => r.shuffle(&mut issue_order),
+            _ => {}
+        }
+        let (mut ni, mut nf) = (0usize, 0usize);
+        let mut script = Vec::new();
+        while ni < n || nf < chunks.len() {
+            match r.below(10) {
+                0..=3 if ni < n => {
+                    let k = issue_order[ni];
+                    ni += 1;
+                    script.push(format!("issue {k}@t{}", task_of[k]));
+                    pool.issue(k, task_of[k]);
+                }
+                4..=5 if nf < chunks.len() => {
+                    script.push(format!("feed {}", chunks[nf].len()));
+                    feed.push(chunks[nf].clone());
+                    nf += 1;
+                }
+                6..=7 if ni > 0 && n_tasks > 1 => {
+                    let k = issue_order[r.below(ni as u64) as usize];
+                    let t = r.below(n_tasks as u64) as usize;
+                    script.push(format!("move {k}->t{t}"));
+                    pool.migrate(k, t);
+                }
+                8 => {
+                    script.push("settle".into());
+                    pool.settle(r);
+                }
+                _ => {}
+            }
+        }
+        pool.settle(r);
+        st.cases += 1;
+        st.polls += pool.polls;
+        st.moved += pool.moved_while_pending;
+        st.shared += pool.shared_waker_polls;
+        let geometry = json!({"message_size": sz, "capacity": cap, "requests": n, "tasks": n_tasks});
+        for (i, o) in pool.out.iter().enumerate() {
+            match o {
+                Some(Err(p)) => {
+                    return Err(finding("panic inside the receive buffer", json!({"component": "UnorderedReceiver", "kind": "panic", "panic": panic_class(p)}),
+                                       json!({"request": i, "panic": p, "geometry": geometry, "script": script})));
+                }
+                Some(Ok(out)) => {
+                    st.requests_completed += 1;
+                    st.messages_checked += 1;
+                    if *out != RecvOut::Msg(payload(i, sz)) {
+                        return Err(finding("recv(i) did not return the i-th message of the stream",
+                                           json!({"component": "UnorderedReceiver", "kind": "wrong_message", "executor": "pool"}),
+                                           json!({"request": i, "got": format!("{out:?}"), "geometry": geometry, "script": script})));
+                    }
+                }
+                None => {}
+            }
+        }
+        let pending = pool.pending();
+        if !pending.is_empty() {
+            return Err(finding(
+                "lost wake-up: all bytes were delivered and no task is woken, yet receive requests are still pending (the waker of their latest poll was never woken)",
+                json!({"component": "UnorderedReceiver", "kind": "stall", "executor": "pool"}),
+                json!({"pending_requests": pending, "owners": pending.iter().map(|k| pool.owner[*k]).collect::<Vec<_>>(), "geometry": geometry, "script": script}),
+            ));
+        }
+        Ok(format!("r/{sz}/{cap}/{n_tasks}/{}", n.min(12)))
+    }
+
+    // ---- sender ---------------------------------------------------------------------------------
+
+    fn send_identity_case<N: ArrayLength>(r: &mut VRng, st: &mut WStats, small: bool) -> Result<String, Finding> {
+        let ws = N::USIZE;
+        let cap_units = r.range(1, 6) as usize;
+        let rs_units = r.range(1, cap_units as u64) as usize;
+        let n = r.range(2, if small { 8 } else { 30 }) as usize;
+        let n_tasks = r.range(1, 4) as usize;
+        let sender = CArc::new(OrderingSender::new(
+            NonZeroUsize::new(cap_units * ws).unwrap(),
+            NonZeroUsize::new(ws).unwrap(),
+            NonZeroUsize::new(rs_units * ws).unwrap(),
+        ));
+        // futures 0..n: sends, n: close, n+1: reader
+        let mut pool: Pool<Vec<u8>> = Pool::new(n_tasks + 1);
+        let reader_task = n_tasks;
+        let mut prios: Vec<u32> = (0..=n as u32).collect();
+        match r.below(3) {
+            0 => prios.reverse(),
+            1 => r.shuffle(&mut prios),
+            _ => {}
+        }
+        for i in 0..n {
+            let s = CArc::clone(&sender);
+            pool.add(Box::pin(async move {
+                s.send::<Msg<N>, Msg<N>>(i, mk_msg::<N>(i)).await;
+                Vec::new()
+            }), prios[i]);
+        }
+        {
+            let s = CArc::clone(&sender);
+            pool.add(Box::pin(async move {
+                s.close(n).await;
+                Vec::new()
+            }), prios[n]);
+        }
+        {
+            let s = CArc::clone(&sender);
+            let max_chunks = n + 2;
+            pool.add(Box::pin(async move {
+                let mut all = Vec::new();
+                for _ in 0..=max_chunks {
+                    match poll_fn(|cx| s.take_next(cx)).await {
+                        Some(v) => all.extend_from_slice(&v),
+                        None => break,
+                    }
+                }
+                all
+            }), 0);
+        }
+        let reader = n + 1;
+        let task_of: Vec<usize> = (0..=n).map(|_| r.below(n_tasks as u64) as usize).collect();
+        let mut issue_order: Vec<usize> = (0..=n).collect();
+        match r.below(3) {
+            0 => issue_order.reverse(),
+            1 => r.shuffle(&mut issue_order),
+            _ => {}
+        }
+        let mut ni = 0usize;
+        let mut reader_started = false;
+        let mut script = Vec::new();
+        let mut guard = 0;
+        while ni <= n || !reader_started {
+            guard += 1;
+            if guard > 10_000 {
+                break;
+            }
+            match r.below(10) {
+                0..=3 if ni <= n => {
+                    let k = issue_order[ni];
+                    ni += 1;
+                    script.push(format!("issue {k}@t{}", task_of[k]));
+                    pool.issue(k, task_of[k]);
+                }
+                4 if !reader_started => {
+                    reader_started = true;
+                    script.push("reader".into());
+                    pool.issue(reader, reader_task);
+                }
+                5..=7 if ni > 0 && n_tasks > 1 => {
+                    let k = issue_order[r.below(ni as u64) as usize];
+                    let t = r.below(n_tasks as u64) as usize;
+                    script.push(format!("move {k}->t{t}"));
+                    pool.migrate(k, t);
+                }
+                8 => {
+                    script.push("settle".into());
+                    pool.settle(r);
+                }
+                _ => {}
+            }
+        }
+        pool.settle(r);
+        st.cases += 1;
+        st.polls += pool.polls;
+        st.moved += pool.moved_while_pending;
+        st.shared += pool.shared_waker_polls;
+        let geometry = json!({"write_size": ws, "capacity": cap_units * ws, "read_size": rs_units * ws, "messages": n, "tasks": n_tasks});
+        for (k, o) in pool.out.iter().enumerate() {
+            if let Some(Err(p)) = o {
+                return Err(finding("panic inside the send buffer", json!({"component": "OrderingSender", "kind": "panic", "panic": panic_class(p)}),
+                                   json!({"future": k, "panic": p, "geometry": geometry, "script": script})));
+            }
+        }
+        let pending = pool.pending();
+        if !pending.is_empty() {
+            return Err(finding(
+                "lost wake-up: every send, the close and the reader were started and no task is woken, yet futures are still pending (the waker of their latest poll was never woken)",
+                json!({"component": "OrderingSender", "kind": "stall", "executor": "pool"}),
+                json!({"pending_futures": pending, "legend": format!("0..{n}: send(i), {n}: close, {}: reader", n + 1),
+                       "owners": pending.iter().map(|k| pool.owner[*k]).collect::<Vec<_>>(), "geometry": geometry, "script": script}),
+            ));
+        }
+        st.requests_completed += n as u64 + 2;
+        let got = match &pool.out[reader] {
+            Some(Ok(v)) => v.clone(),
+            _ => Vec::new(),
+        };
+        let want: Vec<u8> = (0..n).flat_map(|i| payload(i, ws)).collect();
+        st.messages_checked += n as u64;
+        if got != want {
+            return Err(finding(
+                "the byte stream is not the concatenation of the messages in index order",
+                json!({"component": "OrderingSender", "kind": "stream_mismatch", "executor": "pool"}),
+                json!({"got": hex(&got), "want": hex(&want), "geometry": geometry, "script": script}),
+            ));
+        }
+        Ok(format!("s/{ws}/{cap_units}/{rs_units}/{n_tasks}/{}", n.min(12)))
+    }
+
+    fn identity_workload(rec: &mut Recorder, seed: u64, cases: usize, small: bool, mine: &dyn Fn(usize) -> bool, only: Option<usize>) {
+        let mut st = WStats::default();
+        for idx in 0..cases {
+            if !mine(idx) || only.is_some_and(|c| c != idx) {
+                continue;
+            }
+            let mut r = VRng::new(seed ^ 0xC14D_0001, idx as u64);
+            let sz = *r.choose(&[1usize, 2, 4]);
+            rec.eval();
+            let res = if idx % 2 == 0 {
+                with_ws!(sz, N => recv_identity_case::<N>(&mut r, &mut st, small))
+            } else {
+                with_ws!(sz, N => send_identity_case::<N>(&mut r, &mut st, small))
+            };
+            match res {
+                Ok(shape) => rec.distinct(&shape),
+                Err(f) => report(rec, f, idx, json!({"workload": "waker identity (pool executor)", "component": if idx % 2 == 0 { "UnorderedReceiver" } else { "OrderingSender" }})),
+            }
+        }
+        rec.add("identity_cases", st.cases);
+        rec.add("identity_polls", st.polls);
+        rec.add("identity_pending_futures_moved_to_another_waker", st.moved);
+        rec.add("identity_task_polls_sharing_one_waker", st.shared);
+        rec.add("identity_requests_completed", st.requests_completed);
+        rec.add("identity_messages_checked", st.messages_checked);
+    }
+
+    #[test]
+    fn verif_c14_waker_identity() {
+        let env = vlib::env();
+        let mut rec = Recorder::new("C14", "verif_c14_waker_identity");
+        let cases = env.pick(8000, 120_000);
+        identity_workload(&mut rec, env.seed, cases, false, &|i| env.mine(i), replay_case());
+        rec.sample(json!({"workload": "waker identity", "cases": cases}));
+        rec.finish();
+    }
+
+    #[test]
+    fn verif_c14_miri_waker_identity_x1() {
+        let env = vlib::env();
+        let mut rec = Recorder::new("C14", "verif_c14_miri_waker_identity_x1");
+        identity_workload(&mut rec, env.seed, 12, true, &|_| true, None);
+        rec.sample(json!({"workload": "waker identity under miri", "cases": 12}));
+        rec.finish();
+    }
+}
